@@ -857,6 +857,60 @@ pub struct DiscCase {
     pub reason: Option<u8>,
     /// 0 = no with_properties call, else index+1 into the table
     pub props: usize,
+    /// Some(i): the reason is the i-th NAMED variant of the crate's enum (table `NAMED_REASONS`, values transcribed
+    /// from MQTT 5 table 2-6 by name); `reason` is then ignored
+    #[serde(default)]
+    pub named: Option<usize>,
+}
+
+/// Reason codes by their MQTT 5 names (section 2.4, table 2-6), paired with the crate's variant of that name.
+pub fn named_reasons() -> Vec<(&'static str, ReasonCode, u8)> {
+    use ReasonCode::*;
+    vec![
+        ("Success / Normal disconnection", Success, 0x00),
+        ("Granted QoS 1", GrantedQos1, 0x01),
+        ("Granted QoS 2", GrantedQos2, 0x02),
+        ("Disconnect with Will Message", DisconnectWithWill, 0x04),
+        ("No matching subscribers", NoMatchingSubscribers, 0x10),
+        ("No subscription existed", NoSubscriptionExisted, 0x11),
+        ("Continue authentication", ContinueAuthentication, 0x18),
+        ("Re-authenticate", Reauthenticate, 0x19),
+        ("Unspecified error", UnspecifiedError, 0x80),
+        ("Malformed Packet", MalformedPacket, 0x81),
+        ("Protocol Error", ProtocolError, 0x82),
+        ("Implementation specific error", ImplementationError, 0x83),
+        ("Unsupported Protocol Version", UnsupportedProtocol, 0x84),
+        ("Client Identifier not valid", ClientIdentifierInvalid, 0x85),
+        ("Bad User Name or Password", BadUsernameOrPassword, 0x86),
+        ("Not authorized", NotAuthorized, 0x87),
+        ("Server unavailable", ServerUnavailable, 0x88),
+        ("Server busy", ServerBusy, 0x89),
+        ("Banned", Banned, 0x8A),
+        ("Server shutting down", ServerShuttingDown, 0x8B),
+        ("Bad authentication method", BadAuthMethod, 0x8C),
+        ("Keep Alive timeout", KeepAliveTimeout, 0x8D),
+        ("Session taken over", SessionTakenOver, 0x8E),
+        ("Topic Filter invalid", TopicFilterInvalid, 0x8F),
+        ("Topic Name invalid", TopicNameInvalid, 0x90),
+        ("Packet Identifier in use", PacketIdInUse, 0x91),
+        ("Packet Identifier not found", PacketIdNotFound, 0x92),
+        ("Receive Maximum exceeded", ReceiveMaxExceeded, 0x93),
+        ("Topic Alias invalid", TopicAliasInvalid, 0x94),
+        ("Packet too large", PacketTooLarge, 0x95),
+        ("Message rate too high", MessageRateTooHigh, 0x96),
+        ("Quota exceeded", QuotaExceeded, 0x97),
+        ("Administrative action", AdministrativeAction, 0x98),
+        ("Payload format invalid", PayloadFormatInvalid, 0x99),
+        ("Retain not supported", RetainNotSupported, 0x9A),
+        ("QoS not supported", QoSNotSupported, 0x9B),
+        ("Use another server", UseAnotherServer, 0x9C),
+        ("Server moved", ServerMoved, 0x9D),
+        ("Shared Subscriptions not supported", SharedSubscriptionsNotSupported, 0x9E),
+        ("Connection rate exceeded", ConnectionRateExceeded, 0x9F),
+        ("Maximum connect time", MaximumConnectTime, 0xA0),
+        ("Subscription Identifiers not supported", SubscriptionIdentifiersNotSupported, 0xA1),
+        ("Wildcard Subscriptions not supported", WildcardSubscriptionsNotSupported, 0xA2),
+    ]
 }
 
 fn disc_prop_sets() -> Vec<Vec<Prop>> {
@@ -883,9 +937,10 @@ pub fn eval_disc(c: &DiscCase) -> CaseOut {
             let Conn::Ok(mut conn, id) = connect(bench, s, &connack(false, vec![])) else { return None };
             let before = bench.written(id).len();
             let props = props_of(&props_ref);
-            let mut d = match c.reason {
-                None => Disconnect::success(),
-                Some(code) => Disconnect::with_reason(ReasonCode::from(code)),
+            let mut d = match (c.named, c.reason) {
+                (Some(i), _) => Disconnect::with_reason(named_reasons()[i].1),
+                (None, None) => Disconnect::success(),
+                (None, Some(code)) => Disconnect::with_reason(ReasonCode::from(code)),
             };
             if c.props != 0 {
                 d = d.with_properties(&props);
@@ -899,6 +954,7 @@ pub fn eval_disc(c: &DiscCase) -> CaseOut {
         // undefined bytes to Unknown (0xFF)
         let known: [u8; 53] = [0x00, 0x01, 0x02, 0x04, 0x10, 0x11, 0x18, 0x19, 0x80, 0x81, 0x82, 0x83, 0x84, 0x85, 0x86, 0x87, 0x88, 0x89, 0x8a, 0x8b, 0x8c, 0x8d, 0x8e, 0x8f, 0x90, 0x91, 0x92, 0x93, 0x94, 0x95, 0x96, 0x97, 0x98, 0x99, 0x9a, 0x9b, 0x9c, 0x9d, 0x9e, 0x9f, 0xa0, 0xa1, 0xa2, 0xFF, 0, 0, 0, 0, 0, 0, 0, 0, 0];
         let want_reason = match c.reason {
+            _ if c.named.is_some() => named_reasons()[c.named.unwrap()].2,
             None => 0u8,
             Some(code) if known[..44].contains(&code) => code,
             Some(_) => 0xFF,
@@ -1068,7 +1124,12 @@ pub fn run(tier: Tier, caps: &Caps) -> Vec<FamilyReport> {
     let mut dc = Vec::new();
     for reason in std::iter::once(None).chain((0..=255u8).map(Some)) {
         for props in 0..=disc_prop_sets().len() {
-            dc.push(DiscCase { reason, props });
+            dc.push(DiscCase { reason, props, named: None });
+        }
+    }
+    for i in 0..named_reasons().len() {
+        for props in [0usize, 1, 3] {
+            dc.push(DiscCase { reason: None, props, named: Some(i) });
         }
     }
     out.push(sweep(
@@ -1076,7 +1137,7 @@ pub fn run(tier: Tier, caps: &Caps) -> Vec<FamilyReport> {
         "C09",
         dc.len() as u64,
         caps,
-        json!({"cases": dc.len(), "dimensions": "Disconnect::success() and with_reason(every byte value) x {no property call, empty list, 8 property sets}"}),
+        json!({"cases": dc.len(), "dimensions": "Disconnect::success() and with_reason(every byte value) x {no property call, empty list, 8 property sets}; with_reason(each named variant of the enum) against the value MQTT 5 gives that name"}),
         &|i| eval_disc(&dc[i as usize]),
         &|i| serde_json::to_value(&dc[i as usize]).unwrap(),
     ));
